@@ -1339,8 +1339,40 @@ impl GraphDatabase {
             valid_edges.push((edge, name));
         }
 
-        let msg = AuthorisationMessage::AddEdges(room_id, valid_edges, invalid_edges, reply);
-        let _ = self.auth_service.send(msg).await;
+        //an edge belongs to the room of its source node: the source must be a node of that entity stored in the synchronised room
+        let auth_service = self.auth_service.clone();
+        let _ = self
+            .graph_database
+            .reader
+            .send_async(Box::new(move |conn| {
+                let mut in_room = Vec::new();
+                let filter = || -> std::result::Result<(), rusqlite::Error> {
+                    let mut stmt = conn.prepare_cached(
+                        "SELECT 1 FROM _node WHERE id = ? AND room_id = ? AND _entity = ?",
+                    )?;
+                    for (edge, name) in valid_edges {
+                        let found: Option<i64> = stmt
+                            .query_row((&edge.src, &room_id, &edge.src_entity), |row| row.get(0))
+                            .optional()?;
+                        match found {
+                            Some(_) => in_room.push((edge, name)),
+                            None => invalid_edges.push(edge.src),
+                        }
+                    }
+                    Ok(())
+                };
+                match filter() {
+                    Ok(_) => {
+                        let msg =
+                            AuthorisationMessage::AddEdges(room_id, in_room, invalid_edges, reply);
+                        let _ = auth_service.send_blocking(msg);
+                    }
+                    Err(e) => {
+                        let _ = reply.send(Err(Error::from(e)));
+                    }
+                }
+            }))
+            .await;
     }
 
     pub async fn delete_edges(&self, mut edges: Vec<EdgeDeletionEntry>, reply: Sender<Result<()>>) {
